@@ -264,7 +264,14 @@ def run_taint(rep, rng, n):
             scn.repos[1]["url"] = "https://h2/ubuntu"
             scn.auth_text = f"machine h2 login bob password {SECRET2}\nmachine https://h2/ubuntu/ login bob2 password {SECRET2}\n"
             scn.autoclean = rng.random() < 0.5
-            scn.extra_lines = ["set write_file_lists on"]
+            # option lines that name a repository the configuration does not have (a typo, a removed deb line),
+            # written with credentials as the deb line would be: the tool warns about them
+            scn.extra_lines = ["set write_file_lists on",
+                               f"clean http://carol:{SECRET}@h9/gone",
+                               f"ignore_errors http://carol:{SECRET}@h9/gone pool/x",
+                               f"mirror_path http://carol:{SECRET}@h9/gone elsewhere",
+                               f"http2-disable http://carol:{SECRET}@h9/gone",
+                               f"include_source_name http://carol:{SECRET}@h9/gone foo"]
             files = R.files_of(scn)
             plan = {}
             for r in scn.repos:
